@@ -17,11 +17,26 @@ def first_or_default_async_(
             observer: abc.ObserverBase[_T],
             scheduler: abc.SchedulerBase | None = None,
         ):
+            done = False
+
             def on_next(x: _T):
+                nonlocal done
+                if done:
+                    return
+                # recorded before the downstream call: a source re-entered from
+                # inside observer.on_next(x) must not produce a second element
+                done = True
                 observer.on_next(x)
                 observer.on_completed()
 
+            def on_error(error: Exception) -> None:
+                if done:
+                    return
+                observer.on_error(error)
+
             def on_completed():
+                if done:
+                    return
                 if not has_default:
                     observer.on_error(SequenceContainsNoElementsError())
                 else:
@@ -29,7 +44,7 @@ def first_or_default_async_(
                     observer.on_completed()
 
             return source.subscribe(
-                on_next, observer.on_error, on_completed, scheduler=scheduler
+                on_next, on_error, on_completed, scheduler=scheduler
             )
 
         return Observable(subscribe)
